@@ -210,7 +210,7 @@ func c05Body(r *simcore.Run) {
 	for id := uint64(1); id <= n; id++ {
 		if tx := byID[id]; tx != nil {
 			if why := check(tx, cur); why != "" {
-				r.Violation("not-serializable", "", "transaction %d (task %s) is not serializable in commit order: %s\n  program: %+v", id, tx.Task, why, tx.Ops)
+				c05IdxViol(r, "not-serializable", "transaction %d (task %s) is not serializable in commit order: %s\n  program: %+v", id, tx.Task, why, tx.Ops)
 			}
 		}
 		lt := e.led[id]
@@ -258,7 +258,7 @@ func c05Body(r *simcore.Run) {
 			}
 		}
 		if !ok {
-			r.Violation("inconsistent-snapshot", "", "read-only transaction of task %s observed no single committed state between tx %d and %d: %s\n  program: %+v", tx.Task, tx.StartN, tx.EndN, why, tx.Ops)
+			c05IdxViol(r, "inconsistent-snapshot", "read-only transaction of task %s observed no single committed state between tx %d and %d: %s\n  program: %+v", tx.Task, tx.StartN, tx.EndN, why, tx.Ops)
 		}
 	}
 	committed := 0
@@ -326,7 +326,7 @@ func (e *storeEnv) c05Program(task string, idx int) *c05Tx {
 				op.Found, op.Got = true, string(v)
 			} else if !errors.Is(err, store.ErrKeyNotFound) {
 				tx.Cancel()
-				r.Violation("tx-get", "", "Get(%q) inside a transaction failed: %v", k, err)
+				c05IdxViol(r, "tx-get", "Get(%q) inside a transaction failed: %v", k, err)
 			}
 			rec.Ops = append(rec.Ops, op)
 		case w < 6:
@@ -334,7 +334,7 @@ func (e *storeEnv) c05Program(task string, idx int) *c05Tx {
 			rd, err := tx.NewKeyReader(store.KeyReaderSpec{Prefix: []byte("k"), SeekKey: []byte(k), DescOrder: op.Desc, InclusiveSeek: op.IncS, Filters: []store.FilterFn{store.IgnoreDeleted}})
 			if err != nil {
 				tx.Cancel()
-				r.Violation("tx-reader", "", "NewKeyReader inside a transaction failed: %v", err)
+				c05IdxViol(r, "tx-reader", "NewKeyReader inside a transaction failed: %v", err)
 			}
 			for len(op.Keys) < op.Max {
 				kk, ref, err := rd.Read(ctx)
@@ -345,7 +345,7 @@ func (e *storeEnv) c05Program(task string, idx int) *c05Tx {
 				if err != nil {
 					rd.Close()
 					tx.Cancel()
-					r.Violation("tx-reader", "", "reader inside a transaction failed: %v", err)
+					c05IdxViol(r, "tx-reader", "reader inside a transaction failed: %v", err)
 				}
 				v, rerr := ref.Resolve()
 				if rerr != nil {
@@ -417,4 +417,16 @@ func (e *storeEnv) c05Program(task string, idx int) *c05Tx {
 	e.ack(hdr, entries)
 	r.Logf("%s: tx %d committed (%d ops)", task, hdr.ID, len(rec.Ops))
 	return rec
+}
+
+// c05IdxViol reports an anomaly of reads that go through the index. If two
+// indexing goroutines of the index were alive at the same time in this run
+// (the structural precondition of the known compaction-restart defect), it is
+// attributed to that finding, otherwise it is a violation.
+func c05IdxViol(r *simcore.Run, class, format string, args ...interface{}) {
+	if r.Sched != nil && r.Sched.MaxSameName("indexer") > 1 {
+		r.Finding(class, "C04:indexer-overlap-after-compaction", "two indexing goroutines ran concurrently on the index after CompactIndexes restarted it; then: "+format, args...)
+		r.EndRun()
+	}
+	r.Violation(class, "", format, args...)
 }
